@@ -150,6 +150,37 @@ func init() {
 			}
 			rows = append(rows, "("+coqBytes(name)+", "+coqBytes(callee)+", "+coqBytes(hdr)+", "+coqBytes(format)+")")
 		}
+		// smtp.Client.Mail / Rcpt (repaired tree): the byte test that refuses a DSN parameter value
+		addrBoolSite(sp, "param_bad_byte", "(b : N)", "validateParamValue", pickWith(sp, "value[i]"),
+			map[string]string{"value[i]": "b"}, "false")
+		// client.go DSN options: the expression that is validated (switch tag) is the one that is stored
+		dsnSame := func(fnName, stored string) bool {
+			fn, ok := p.funcs[fnName]
+			if !ok || fn.Body == nil {
+				return false
+			}
+			tagOK, storeOK := false, false
+			ast.Inspect(fn.Body, func(x ast.Node) bool {
+				switch t := x.(type) {
+				case *ast.SwitchStmt:
+					if t.Tag != nil && p.src(t.Tag) == stored {
+						tagOK = true
+					}
+				case *ast.AssignStmt:
+					for _, rhs := range t.Rhs {
+						src := p.src(rhs)
+						if src == stored || src == "append(rcptOpts, string("+stored+"))" {
+							storeOK = true
+						}
+					}
+				}
+				return true
+			})
+			return tagOK && storeOK
+		}
+		emit("(* client.go: WithDSNMailReturnType / WithDSNRcptNotifyType store the very expression their switch validates *)\n")
+		emit("Definition dsn_ret_validated_is_stored : bool := %v.\nDefinition dsn_notify_validated_is_stored : bool := %v.\n",
+			dsnSame("WithDSNMailReturnType", "option"), dsnSame("WithDSNRcptNotifyType", "opt"))
 		// the *Format setters: is the display name wrapped in quotedPairs(...) before it is interpolated?
 		var fe []string
 		for _, name := range []string{"EnvelopeFromFormat", "FromFormat", "AddToFormat", "AddCcFormat", "AddBccFormat", "ReplyToFormat", "RequestMDNAddToFormat"} {
